@@ -63,6 +63,7 @@ type Obl struct {
 	TimeS   float64
 	Model   string
 	Bounded bool
+	vc      *VC
 }
 
 // VC accumulates the verification condition of one function under contract.
@@ -83,6 +84,7 @@ type VC struct {
 	inlineSeq int
 	noSafety  bool
 	preludeError string
+	mapKeys   map[string][]Term // map domain heap -> key terms used by the function (replay candidates)
 	lemma     *Lemma
 	heapAlloc map[string]Term
 	unsup     map[string]bool
